@@ -217,3 +217,122 @@ package kmipserver
 //@   ensures len(exec.middlewares) == 0 ==> ctxvalue(coreCtx, ctxConn) == ctxvalue(ctx, ctxConn)
 //@   ensures 0 < len(exec.middlewares) ==> mwCalls == old(mwCalls)+1 && mwMsg == req && mwSelf == exec.middlewares[0] && typeis(ctxvalue(mwCtx, ctxBatch), *batchData) && isnew(holder(mwCtx))
 //@   ghostmod mwCalls, mwSelf, mwNext, mwCtx, mwMsg, mwRet, mwErr, coreCalls, coreCtx, coreMsg, coreRet, coreErr, biCalls, biSelf, biNext, biCtx, biItem, biRet, biErr, itemCalls, itemCtx, itemItem, itemRet, itemErr, handlerCalls, handlerCtx, corePlaceholderAtEntry, ewmCalls, ewmCtx
+
+// ---------------------------------------------------------------------------
+// one connection, sequential clauses (C08, C16)
+
+//@ ghostvar connectCalls int
+//@ ghostvar hookOK bool
+//@ ghostvar termCalls int
+//@ ghostvar termAtHandled int
+//@ ghostvar newConns int
+//@ ghostvar closeCalls int
+//@ ghostvar wgDone int
+//@ ghostvar okRecvs int
+//@ ghostvar lastRecvEnc bool
+//@ ghostvar sends int
+//@ ghostvar lastSent *kmip.ResponseMessage
+//@ ghostvar handled int
+//@ ghostvar errReplies int
+//@ ghostvar errReply *kmip.ResponseMessage
+
+//@ functype kmipserver.ConnectHook
+//@   params ctx
+//@   results c, e
+//@   ensures e == nil ==> c != nil
+//@   pure
+
+//@ functype kmipserver.TerminateHook
+//@   params ctx
+//@   pure
+
+//@ func (*Server).connectHook
+//@   requires srv != nil && ctx != nil
+//@   ensures r1 == nil ==> r0 != nil
+//@   pure
+//@   ghost connectCalls = old(connectCalls) + 1
+//@   ghost hookOK = r1 == nil
+
+//@ func (*Server).terminateHook
+//@   requires srv != nil
+//@   pure
+//@   ghost termCalls = old(termCalls) + 1
+//@   ghost termAtHandled = handled
+
+//@ func newConn
+//@   trusted
+//@   ensures r0 != nil && isnew(r0) && r0.ctx != nil
+//@   pure
+//@   ghost newConns = old(newConns) + 1
+
+//@ func (*conn).Close
+//@   trusted
+//@   requires c != nil
+//@   pure
+//@   ghost closeCalls = old(closeCalls) + 1
+
+// receive one request (channels/select: any outcome); a nil error comes with a message
+//@ func (*conn).recv
+//@   trusted
+//@   requires c != nil
+//@   ensures r1 == nil ==> r0 != nil
+//@   pure
+//@   ghost okRecvs = old(okRecvs) + ite(r1 == nil, 1, 0)
+//@   ghost lastRecvEnc = isenc(r1)
+
+//@ func (*conn).send
+//@   trusted
+//@   requires c != nil
+//@   pure
+//@   ghost sends = old(sends) + 1
+//@   ghost lastSent = msg
+
+//@ func (*Server).handleRequest
+//@   trusted
+//@   requires srv != nil && req != nil
+//@   pure
+//@   ghost handled = old(handled) + 1
+
+//@ func (*Server).handleMessageError
+//@   requires srv != nil && ctx != nil
+//@   ensures r0 != nil && len(r0.BatchItem) == 1 && r0.Header.BatchCount == 1 && r0.BatchItem[0].ResultStatus == kmip.ResultStatusOperationFailed && r0.BatchItem[0].ResultReason == reason
+//@   modifies holder(ctx).idPlaceholder
+//@   ghost errReplies = old(errReplies) + 1
+//@   ghost errReply = r0
+
+//@ func (*Server).handleConn
+//@   requires srv != nil && srv.wg != nil && srv.logger != nil && conn != nil && srv.recvCtx != nil
+//@   ensures wgDone == old(wgDone)+1
+//@   ensures newConns == old(newConns) || (newConns == old(newConns)+1 && closeCalls == old(closeCalls)+1)
+//@   ensures newConns == old(newConns) ==> connectCalls == old(connectCalls) && termCalls == old(termCalls) && sends == old(sends) && handled == old(handled)
+//@   ensures connectCalls != old(connectCalls) && hookOK ==> termCalls == old(termCalls)+1 && termAtHandled == handled
+//@   ensures connectCalls == old(connectCalls) || !hookOK ==> termCalls == old(termCalls) && handled == old(handled) && sends == old(sends)
+//@   ensures handled-old(handled) == okRecvs-old(okRecvs)
+//@   ensures sends-old(sends) == okRecvs-old(okRecvs)+(errReplies-old(errReplies)) || sends-old(sends)+1 == okRecvs-old(okRecvs)+(errReplies-old(errReplies))
+//@   ensures errReplies == old(errReplies) || (errReplies == old(errReplies)+1 && lastRecvEnc && lastSent == errReply)
+//@   loop 0 invariant sends-old(sends) == okRecvs-old(okRecvs) && handled-old(handled) == okRecvs-old(okRecvs) && errReplies == old(errReplies)
+//@   loop 0 invariant termCalls == old(termCalls) && connectCalls == old(connectCalls)+1 && hookOK && newConns == old(newConns)+1 && closeCalls == old(closeCalls) && wgDone == old(wgDone)
+//@   loop 0 ghostmod okRecvs, lastRecvEnc, sends, lastSent, handled, errReplies, errReply
+
+//@ func handleMessageError
+//@   requires ctx != nil && err != nil
+//@   ensures r0 != nil && isnew(r0) && len(r0.BatchItem) == 1 && r0.Header.BatchCount == 1 && r0.BatchItem[0].ResultStatus == kmip.ResultStatusOperationFailed
+//@   ensures typeis(err, Error) ==> r0.BatchItem[0].ResultReason == dyn(err, Error).Reason
+//@   modifies holder(ctx).idPlaceholder
+
+//@ ghostvar acceptErrClosed bool
+//@ ghostvar wgAdd int
+
+//@ iface net.Listener.Accept
+//@   recv l
+//@   results c, e
+//@   ensures e == nil ==> c != nil
+//@   pure
+//@   ghost acceptErrClosed = erris(e, net.ErrClosed)
+
+// the accept loop ends with the shutdown error exactly when the listener was closed
+//@ func (*Server).Serve
+//@   requires srv != nil && srv.listener != nil && srv.logger != nil && srv.wg != nil
+//@   ensures r0 != nil
+//@   ensures acceptErrClosed ==> r0 == ErrShutdown
+//@   loop 0 ghostmod acceptErrClosed, wgAdd
